@@ -3,6 +3,9 @@
 Decided: the four roll-up terms of the summary region of both passes (formula equality against the property's terms),
 evaluated after the children were scheduled; clearing of user values on every summary of the clone before the pass;
 WBS.start / WBS.end shape; the forward leaf end derives from a fill started at >= task.start.
+Round 4: the side of the date on which the fill books (backward: first examined day is the day before midnight(end'), also
+on conditional pre-loop steps of the day cursor); running totals (`total += child.estimate` in the children loop, or totals
+fed by the values the recursive call returns - then every return of the pass must hand back the task's field).
 Not decided: start <= end of a leaf from the numeric interaction of day fractions.
 """
 from __future__ import annotations
@@ -55,6 +58,15 @@ def check(ctx):
                    f"on the scheduler makes a repeated calc skip tasks: no dates, no roll-ups)")
         ctx.guarded(o, lambda o, S=S: sched.memo_is_local(ctx, o, S))
 
+    for S in BOTH:
+        fwd = S['dir'] == 1
+        o = ctx.ob(f"{S['name']}_fill_books_on_the_right_side_of_the_date", 'R8',
+                   ("forward: the first day the fill examines is midnight(start'), so every booked day - and the end, that day plus "
+                    "its booked share - is not before the day of the start") if fwd else
+                   ("backward: the first day the fill examines is the day before midnight(end'), so every booked day lies wholly "
+                    "before the end and start = day + 1 day - booked share <= midnight(end') <= end"), floor=1)
+        ctx.guarded(o, lambda o, S=S: fill_side(ctx, o, S))
+
     o = ctx.ob('wbs_start_end', 'R8', "WBS.start = min(root starts), WBS.end = max(root ends), over all roots, None filter only", floor=2)
     ctx.guarded(o, lambda o: wbs_bounds(ctx, o))
 
@@ -64,6 +76,62 @@ def check(ctx):
     ctx.guarded(o, lambda o: leaf_order(ctx, o, PassShape(ctx, FWD)))
 
 
+def fill_side(ctx, o, S):
+    from .c02 import first_day_offset
+    fill = ctx.prog.func(S['fill'])
+    fwd = S['dir'] == 1
+    want = 0 if fwd else -1
+    first = first_day_offset(ctx, fill, S)
+    what = 'start' if fwd else 'end'
+    if first is None:
+        o.undecided(fill, fill.node, 'first day', "cannot determine the first day of the fill loop")
+    elif first[0] == 'not-midnight':
+        o.undecided(fill, first[1], first[1], "the day cursor of the fill does not start at a midnight")
+    elif first[0] != want:
+        if fwd:
+            msg = (f"the first day examined by the fill can be midnight(start) {first[0]:+g} day(s): "
+                   + ("work booked there puts the end before the start" if first[0] < 0 else "the day of the start itself is skipped"))
+        else:
+            msg = (f"the first day examined by the backward fill can be midnight(end) {first[0]:+g} day(s); expected the day before "
+                   f"midnight(end): " + ("hours are booked on the day of the end itself (or later) and `day + 1 day - booked share` can "
+                                         "lie after the end: start > end" if first[0] > -1 else "the day before the end is skipped"))
+        if (fwd and first[0] < 0) or (not fwd and first[0] > -1):
+            o.refute(fill, first[1], first[1], msg)
+        else:
+            o.site(fill, first[1], f"first day midnight({what}) {first[0]:+g}: on the safe side for start <= end")
+    else:
+        o.site(fill, first[1], f"first day = midnight({what}) {want:+d} day(s)")
+
+
+def _stores_elementwise(f):
+    """facts.attr_stores plus: `a.x, a.y = u, v` split element-wise, and `for n in ('x', 'y'): setattr(a, n, v)` /
+    `setattr(a, 'x', v)` read as the stores a.x = v, a.y = v"""
+    out = []
+    for st, tgt, val in facts.attr_stores(f):
+        if isinstance(st, ast.Assign):
+            for t in st.targets:
+                if isinstance(t, (ast.Tuple, ast.List)) and any(e is tgt for e in t.elts):
+                    if isinstance(val, (ast.Tuple, ast.List)) and len(val.elts) == len(t.elts):
+                        val = val.elts[[i for i, e in enumerate(t.elts) if e is tgt][0]]
+        out.append((st, tgt, val))
+    for n in walk_no_nested(f.node):
+        if isinstance(n, ast.Expr) and isinstance(n.value, ast.Call) and isinstance(n.value.func, ast.Name) and n.value.func.id == 'setattr' \
+                and len(n.value.args) == 3 and isinstance(n.value.args[0], ast.Name):
+            obj, nm, val = n.value.args
+            names = []
+            if isinstance(nm, ast.Constant) and isinstance(nm.value, str):
+                names = [nm.value]
+            elif isinstance(nm, ast.Name):
+                for lp in walk_no_nested(f.node):
+                    if isinstance(lp, ast.For) and isinstance(lp.target, ast.Name) and lp.target.id == nm.id and \
+                            any(x is n for x in ast.walk(lp)) and isinstance(lp.iter, (ast.Tuple, ast.List)) and \
+                            all(isinstance(e, ast.Constant) and isinstance(e.value, str) for e in lp.iter.elts):
+                        names = [e.value for e in lp.iter.elts]
+            for name in names:
+                out.append((n, ast.copy_location(ast.Attribute(value=obj, attr=name, ctx=ast.Store()), n), val))
+    return out
+
+
 def _clearing_loops(f):
     """For loops `for t in <w>.tasks:` of f that store None into a date/work field of t"""
     out = []
@@ -71,7 +139,7 @@ def _clearing_loops(f):
         tv = lp.target.id if isinstance(lp.target, ast.Name) else None
         if tv is None:
             continue
-        sts = [(st, tgt, val) for st, tgt, val in facts.attr_stores(f) if any(x is st for x in ast.walk(lp)) and
+        sts = [(st, tgt, val) for st, tgt, val in _stores_elementwise(f) if any(x is st for x in ast.walk(lp)) and
                isinstance(tgt.value, ast.Name) and tgt.value.id == tv and tgt.attr in FIELDS and
                isinstance(val, ast.Constant) and val.value is None]
         if sts:
@@ -116,7 +184,7 @@ def cleared(ctx, o, S):
         return
     holder, lp, tv, sts, w, cn, wname, where = sites[0]
     if w is not None and match(f"{inp}.clone()", w):
-        if all(cfg.dominates(cn, cfg.node_containing(pc)) for pc in pcalls) and not cfg.conditions(cn):
+        if all(cfg.dominates(cn, cfg.node_containing(pc)) for pc in pcalls):
             o.site(calc, where, "summary fields of the clone are cleared before the pass")
         else:
             o.refute(calc, where, where, "summary fields are not cleared on every path before the pass runs")
@@ -179,9 +247,14 @@ def _children_comp(ps, e, attr, at, allow_filter=True):
     elt, tgt, it, ifs = parts
     if not isinstance(tgt, ast.Name):
         return None
+    elt = _plain_attrs(elt)
+    ifs = [_plain_attrs(c) for c in ifs]
     it_x = ps.ex.expand(it, at)
-    if not match(f"{ps.task}.children", it_x):
-        return ('bad', f"rolled up over `{src(it_x)}` instead of all children")
+    cov = _covers_children(ps, it_x)
+    if cov is None:
+        return None
+    if cov is not True:
+        return ('bad', f"rolled up over `{src(it_x)[:90]}` instead of all children ({cov})")
     if not match(f"{tgt.id}.{attr}", elt):
         return ('bad', f"rolls up `{src(elt)}` instead of the children's {attr}")
     for c in ifs:
@@ -190,27 +263,136 @@ def _children_comp(ps, e, attr, at, allow_filter=True):
     return 'ok'
 
 
-def rollup(ctx, o, ps: PassShape):
+def _covers_children(ps, e, depth=0):
+    """does sequence expression e range over ALL children of the task?  True | reason it is a proper part | None (not understood)"""
+    if depth > 5:
+        return None
+    m = match("list($x)", e) or match("tuple($x)", e) or match("reversed($x)", e) or match("sorted($x)", e) or match("iter($x)", e)
+    if m is None and isinstance(e, ast.Call) and isinstance(e.func, ast.Name) and e.func.id == 'sorted' and len(e.args) == 1:
+        m = {'x': e.args[0]}
+    if m:
+        return _covers_children(ps, m['x'], depth + 1)
+    if match(f"{ps.task}.children", e):
+        return True
+    m = match(f"{ps.task}.$a", e)
+    if m and isinstance(m['a'], str) and m['a'] in ('all_children', 'predecessors', 'successors', 'all_parents', 'all_predecessors',
+                                                    'all_successors'):
+        return (f"`{src(e)}`" + (": all descendants, so the work of nested summaries is counted once per level" if m['a'] == 'all_children'
+                                 else ": not the children of the task"))
+    parts = facts.comp_parts(e)
+    if parts:
+        elt, tgt, it, ifs = parts
+        if not (isinstance(elt, ast.Name) and isinstance(tgt, ast.Name) and elt.id == tgt.id):
+            return None
+        inner = _covers_children(ps, it, depth + 1)
+        if inner is True and ifs:
+            return "children filtered by `" + ' and '.join(src(c) for c in ifs)[:60] + "`"
+        return inner
+    if isinstance(e, ast.BoolOp) and isinstance(e.op, ast.Or):
+        rs = [_covers_children(ps, v, depth + 1) for v in e.values]
+        if any(r is None for r in rs):
+            return None
+        bad = [r for r in rs if r is not True]
+        return bad[0] if bad else True
+    if isinstance(e, ast.Subscript) and isinstance(e.slice, ast.Slice):
+        inner = _covers_children(ps, e.value, depth + 1)
+        if e.slice.lower is None and e.slice.upper is None:
+            return inner          # x[:] / x[::-1]: every element
+        return "a slice of the children" if inner is True else inner
+    return None
+
+
+def _accumulated_sum(ps, name, attr, children_loop_node):
+    """local `name` is a running total: set to 0 and increased inside the loop that schedules the children.
+    'ok' when every step adds <child>.<attr> unconditionally; ('bad', node, msg) when a step adds something that is recognisably
+    not the child's field; None when the shape is not understood"""
+    ds = ps.fl.defs_of(name)
+    inits = [d for d in ds if d.kind == 'assign']
+    steps = [d for d in ds if d.kind == 'aug']
+    if not inits or not steps or len(inits) + len(steps) != len(ds):
+        return None
+    if not all(isinstance(d.value, ast.Constant) and d.value.value == 0 for d in inits):
+        return None
+    for d in steps:
+        if not isinstance(d.stmt.op, ast.Add):
+            return None
+        fors = ps.cfg.enclosing_fors(d.node)
+        if not fors:
+            return None
+        fo = fors[-1] if len(fors) == 1 else next((x for x in fors if any(y is d.stmt for y in x.body)), fors[-1])
+        it = ps.ex.expand(fo.iter, ps.cfg.node_of(fo))
+        if _covers_children(ps, it) is not True:
+            cov = _covers_children(ps, it)
+            if cov is None:
+                return None
+            return ('bad', d.stmt, f"the running total is fed from {cov}")
+        lv = fo.target.id if isinstance(fo.target, ast.Name) else None
+        extra = len(ps.cfg.conditions(d.node)) - len(ps.cfg.conditions(ps.cfg.node_of(fo)))
+        v = d.stmt.value
+        if lv and match(f"{lv}.{attr}", _plain_attrs(v)):
+            if extra > 0:
+                return ('bad', d.stmt, f"`{src(d.stmt)}` is conditional: some children are left out of the total")
+            continue
+        if lv and match(f"{lv}.$a", _plain_attrs(v)):
+            return ('bad', d.stmt, f"`{src(d.stmt)}` adds another field than the child's {attr}")
+        # the value returned by the recursive call on the child (tuple-unpacked): every return of the pass must hand back task.<attr>
+        if isinstance(v, ast.Name):
+            for ud in ps.fl.reaching(v.id, d.node):
+                if ud.kind in ('assign', 'unpack') and isinstance(ud.stmt, ast.Assign) and isinstance(ud.stmt.value, ast.Call) and \
+                        ud.stmt.value in ps.pass_calls():
+                    tg = ud.stmt.targets[0]
+                    idx = None
+                    if isinstance(tg, (ast.Tuple, ast.List)):
+                        idx = next((i for i, e in enumerate(tg.elts) if isinstance(e, ast.Name) and e.id == v.id), None)
+                    for r in [x for x in walk_no_nested(ps.f.node) if isinstance(x, ast.Return)]:
+                        rv = r.value
+                        if idx is not None:
+                            rv = rv.elts[idx] if isinstance(rv, (ast.Tuple, ast.List)) and len(rv.elts) > idx else None
+                        if rv is None or not match(f"{ps.task}.{attr}", rv):
+                            return ('bad', r, f"the total adds what the recursive call returns, and `{src(r)[:50]}` does not return the "
+                                              f"task's {attr}: a child scheduled earlier (through a dependency link) is not counted")
+                    break
+            else:
+                return None
+            continue
+        return None
+    return 'ok'
+
+
+def rollup(ctx, o, ps: PassShape, attrs=None):
     S = ps.S
     want = {'start': 'min', 'end': 'max', 'estimate': 'sum', 'spent': 'sum'}
+    if attrs is not None:
+        want = {a: want[a] for a in attrs}
     # children recursion loop
     ch_loops = []
+    unknown_calls = []
     for c in ps.pass_calls():
-        fo = ps.call_loop(c)
-        if fo is not None:
-            it = ps.ex.expand(fo.iter, ps.cfg.node_of(fo))
-            m = match("reversed($x)", it) or match("list($x)", it)
-            if m:
-                it = m['x']
+        ci = ps.call_iter(c)
+        if ci is not None:
+            fo, itc = ci
+            it = sched.whole_seq(ps.ex.expand(itc, ps.cfg.node_of(fo)))
             if match(f"{ps.task}.children", it):
                 ch_loops.append(fo)
+            elif not (isinstance(it, ast.Name) or match(f"{ps.task}.{ps.rel}", it)):
+                unknown_calls.append(c)       # a loop over something that is neither the children nor a plain local collection
+        else:
+            unknown_calls.append(c)
     if not ch_loops:
+        if unknown_calls:
+            o.undecided(ps.f, unknown_calls[0], unknown_calls[0], "recursive call of the pass outside a loop over a collection: cannot tell "
+                                                                  "whether the children are scheduled before the roll-up")
+            return
         o.refute(ps.f, ps.f.node, 'children recursion', "the pass never schedules the children")
         return
     chn = ps.cfg.node_of(ch_loops[0])
     for attr, op in want.items():
         sts = [x for x in ps.stores(attr) if x[3]['milestone'] is False and x[3]['leaf'] is False]
         if not sts:
+            vague = [x for x in ps.stores(attr) if x[3]['leaf'] is None and x[3]['milestone'] is not True]
+            if vague:
+                o.undecided(ps.f, vague[0][0], vague[0][0], f"task.{attr} is stored under conditions the rule cannot classify as leaf / summary")
+                continue
             o.refute(ps.f, ps.f.node, f'summary {attr}', f"summary {attr} is never computed from the children")
             continue
         for st, tgt, val, reg in sts:
@@ -236,6 +418,15 @@ def rollup(ctx, o, ps: PassShape):
                     if inner and len(inner) > 1:
                         o.refute(ps.f, st, st, f"summary {attr} is `{src(vx)[:90]}`: clamped/combined with other terms instead of the plain "
                                                f"{op} over the children (a child outside the bound makes start > end)")
+                    elif isinstance(vx, ast.Name) and op == 'sum' and _accumulated_sum(ps, vx.id, attr, chn) is not None:
+                        r = _accumulated_sum(ps, vx.id, attr, chn)
+                        if r == 'ok':
+                            o.site(ps.f, st, f"summary {attr} = running total of child.{attr} over all children")
+                        else:
+                            o.refute(ps.f, r[1], r[1], f"summary {attr}: {r[2]}")
+                    elif isinstance(vx, ast.Name) or (isinstance(vx, ast.Call) and not (isinstance(vx.func, ast.Name) and
+                                                                                         vx.func.id in ('min', 'max', 'sum', 'len', 'datetime'))):
+                        o.undecided(ps.f, st, st, f"summary {attr} is `{src(vx)[:60]}`, which could not be resolved to {op}(children {attr}s)")
                     else:
                         o.refute(ps.f, st, st, f"summary {attr} is `{src(vx)[:90]}`; expected {op}(children {attr}s)")
                     continue
@@ -260,6 +451,20 @@ def rollup(ctx, o, ps: PassShape):
                 o.refute(ps.f, st, st, f"summary {attr}: {r[1]}")
 
 
+def _plain_attrs(tree):
+    """getattr(x, '<name>') with a constant name (two arguments) is the attribute access x.<name>"""
+    import copy
+
+    class T(ast.NodeTransformer):
+        def visit_Call(self, n):
+            self.generic_visit(n)
+            if isinstance(n.func, ast.Name) and n.func.id == 'getattr' and len(n.args) == 2 and not n.keywords and \
+                    isinstance(n.args[1], ast.Constant) and isinstance(n.args[1].value, str) and n.args[1].value.isidentifier():
+                return ast.copy_location(ast.Attribute(value=n.args[0], attr=n.args[1].value, ctx=ast.Load()), n)
+            return n
+    return ast.fix_missing_locations(T().visit(copy.deepcopy(tree)))
+
+
 def wbs_bounds(ctx, o):
     prog = ctx.prog
     for attr, op in (('start', 'min'), ('end', 'max')):
@@ -276,7 +481,12 @@ def wbs_bounds(ctx, o):
                     continue          # the None answer for an empty WBS
                 cases.append((r, cv))
         for r, v in cases:
-            if not (isinstance(v, ast.Call) and isinstance(v.func, ast.Name) and v.func.id == op and len(v.args) == 1):
+            v = _plain_attrs(v)
+            if isinstance(v, ast.Call) and len(v.keywords) == 1 and v.keywords[0].arg == 'default' and \
+                    isinstance(v.keywords[0].value, ast.Constant) and v.keywords[0].value.value is None:
+                # min(xs, default=None): the None answer for a WBS without dates, otherwise the plain extremum
+                v = ast.copy_location(ast.Call(func=v.func, args=v.args, keywords=[]), v)
+            if not (isinstance(v, ast.Call) and isinstance(v.func, ast.Name) and v.func.id == op and len(v.args) == 1 and not v.keywords):
                 o.refute(f, r, r, f"WBS.{attr} returns `{src(v)[:80]}`; expected {op}(root {attr}s)")
                 good = None
                 continue
@@ -309,6 +519,9 @@ def leaf_order(ctx, o, ps: PassShape):
         args = facts.flatten_lattice(v, 'max') or [v]
         fc = [a for a in args if isinstance(a, ast.Call) and isinstance(a.func, ast.Attribute) and unmangle(a.func.attr) == fill.name]
         if len(fc) != 1:
+            if not fc and any(isinstance(a, ast.Name) and a.id not in ps.f.params for a in args):
+                o.undecided(ps.f, st, st, f"leaf end `{src(v)[:80]}` contains a local the rule could not resolve")
+                continue
             o.refute(ps.f, st, st, f"leaf end `{src(v)[:80]}` does not come from the fill loop")
             continue
         sa = facts.flatten_lattice(fc[0].args[2], 'max') or [fc[0].args[2]]
